@@ -112,6 +112,15 @@ CHECKS.update({
     ),
 })
 
+CHECKS.update({
+    "C08": dict(
+        technique="Lean 4 proof that every iteration over a symbol set in the repaired code goes through a canonical sort whose result is invariant under permutations of the set (SGE genotype creation, stack symbol choice), and that the grammar analysis is the unique fixpoint whatever the visiting order + in-process permutation of set iteration orders and fresh interpreters with different PYTHONHASHSEED / allocation padding / import order",
+        text="Theorems (Props/C08.lean, 14): sorted(set, key) is a sorted permutation and is the same list for every enumeration of the set (injective keys), hence repaired SGE genotype creation and the stack machine's symbol choice do not depend on set order; machine-checked witnesses that the pinned versions did; the distance analysis equals any solution of its equations (order of the Python loop irrelevant, from C05); a model run is a function of configuration and stream. Implementation side: every algorithm x representation battery must give the same sequence of evaluated programs, best program and fitness in this process (twice), under permuted set orders, and in fresh interpreters with different hash seeds, padding and import orders.",
+        note="PARTIAL by nature: CPython's address-dependent hashing and hidden interpreter state cannot be exhibited by a model; they are over-approximated by explicit permutations and sampled by fresh interpreters. Distinct symbols are assumed to have distinct str(). Trusted: Lean kernel + standard axioms.",
+        design="5/C08",
+    ),
+})
+
 NOT_YET = {
     "C04": "check built (exhaustive-script set comparison with the Lean enumerator passes; one open finding); theorems (soundness corollaries, enumerator correctness, completeness of grow) are being proved - claimed once Props/C04.lean holds them",
     "C08": "check built (in-process set-order permutations + fresh interpreters with different PYTHONHASHSEED / padding / import order); order-independence theorems are being proved - claimed once Props/C08.lean holds them",
